@@ -168,8 +168,14 @@ def run():
                 # a query while A is inside its transaction answers from the state before A (no dirty
                 # read); once A has committed it answers from the state after A; it never waits
                 if blocked:
-                    c.violation('oracle', 'a reader was blocked by a writer paused at %s' % t['p'], rep)
-                    continue
+                    # under machine load a query may simply need more than 150 ms: ask again with 3 s before judging
+                    again = c.worker.run([l.replace('CON %s 1 ' % t['p'], 'CON %s 1:3000 ' % t['p'], 1) if l.startswith('CON ') else l for l in rep] + ['RMD'])
+                    c.count('reader_retry')
+                    if 'b_blocked=1' in again[len(rep) - 1]:
+                        c.violation('oracle', 'a reader was blocked (3 s) by a writer paused at %s' % t['p'], rep)
+                        continue
+                    r = again[len(rep) - 1]
+                    rb = r[r.index('] B=[') + 5:r.index('] reached=')]
                 allowed = ['AB'] if t['p'] in AFTER else ['BA']
                 okr = [o for o in allowed if cls(ra) == cls(serial[o][0]) and norm(t['bline'], rb) == norm(t['bline'], serial[o][1]) and wbat == serial[o][2]]
             if not okr:
